@@ -53,13 +53,46 @@ type env struct {
 	ipt  *fakes.IPTables
 	pm   *policy.PolicyManager
 	w    *world
+
+	// operation counting / single fault injection (the hooks run under the fakes' shared lock)
+	ipsetCalls, iptCalls int
+	failKind             string // "" | ipset | iptables
+	failAt               int
+	failedOp             string // the operation that was made to fail, once
 }
+
+// The errors an exec-backed handle returns when the tool itself fails (nothing reaches the kernel).
+const (
+	ipsetToolError    = "exit status 1 (ipset v7.17: Kernel error received: Cannot allocate memory)"
+	iptablesToolError = "exit status 4 (Another app is currently holding the xtables lock. Perhaps you want to use the -w option?)"
+)
 
 func newEnv(w *world) *env {
 	e := &env{sets: fakes.NewIPSet(), w: w}
 	e.ipt = fakes.NewIPTables(e.sets)
+	e.sets.FailHook = func(op string) error {
+		e.ipsetCalls++
+		if e.failKind == "ipset" && e.failedOp == "" && e.ipsetCalls == e.failAt {
+			e.failedOp = "ipset " + op
+			return fmt.Errorf("%s", ipsetToolError)
+		}
+		return nil
+	}
+	e.ipt.FailHook = func(op string) error {
+		e.iptCalls++
+		if e.failKind == "iptables" && e.failedOp == "" && e.iptCalls == e.failAt {
+			e.failedOp = "iptables " + op
+			return fmt.Errorf("%s", iptablesToolError)
+		}
+		return nil
+	}
 	e.restart()
 	return e
+}
+
+// arm makes the k-th operation of the kind fail once, counted from now; arm("", 0) only resets the counters.
+func (e *env) arm(kind string, k int) {
+	e.ipsetCalls, e.iptCalls, e.failKind, e.failAt, e.failedOp = 0, 0, kind, k, ""
 }
 
 // restart replaces the manager by a new instance over the same kernel state (a daemon restart).
